@@ -8,7 +8,7 @@ patch=$(readlink -f "$1"); shift
 wt=/tmp/mutant-wt
 [ -d $wt ] || git -C /repo worktree add --detach $wt HEAD >/dev/null 2>&1 || exit 2
 git -C $wt checkout -q --detach $(git -C /repo rev-parse HEAD) && git -C $wt checkout -q -- . && git -C $wt clean -fdq -e target
-git -C $wt apply "$patch" || { echo "patch does not apply"; exit 2; }
+git -C $wt apply "$patch" 2>/dev/null || (cd $wt && patch -p1 -s -F3 < "$patch") || { echo "patch does not apply"; exit 2; }
 for id in "$@"; do
   out=$(cd /verif && VERIF_REPO=$wt VERIF_ROOT=/tmp/mutant-out ./check $id --tier ${TIER:-quick} 2>&1); rc=$?
   echo "== $(basename $(dirname $patch))/$(basename $patch) / $id: exit $rc"
